@@ -268,24 +268,28 @@ instance (script : List (List Ans)) (t : Nat) : Decidable (AllExecAt script t) :
 def seenExecBefore (script : List (List Ans)) (t j : Nat) : Bool :=
   (script.take t).any fun v => v[j]? == some Ans.exec
 
-/-- closing at tick `t` is justified: every member is reported executed at `t`, or was at an earlier tick -/
-def ClosedOk (script : List (List Ans)) (t : Nat) : Prop :=
+/-- closing at tick `t` is justified: every member is reported executed at `t`; the only exception is a member that
+    was reported executed at an earlier tick AND is not asked about at `t` at all (`askedAt` = the members the closing
+    sweep asked about) — a member that is asked at `t` and answers pending or error forbids closing -/
+def ClosedOk (script : List (List Ans)) (t : Nat) (askedAt : List Nat) : Prop :=
   match script[t]? with
-  | some v => ∀ j, j < v.length → (v[j]? = some Ans.exec ∨ seenExecBefore script t j = true)
+  | some v => ∀ j, j < v.length →
+      (v[j]? = some Ans.exec ∨ (seenExecBefore script t j = true ∧ j ∉ askedAt))
   | none => False
 
-instance (script : List (List Ans)) (t : Nat) : Decidable (ClosedOk script t) := by
+instance (script : List (List Ans)) (t : Nat) (askedAt : List Nat) : Decidable (ClosedOk script t askedAt) := by
   unfold ClosedOk; split <;> infer_instance
 
 /-- PWatch: the session is closed as executed at tick `t` only if every member has been reported executed by then
     (so a member that is still pending, or whose lookups have only failed, is never dropped), and it is not kept open
     past a tick at which all members are reported executed -/
-def PWatch (script : List (List Ans)) (closed : Option Nat) : Prop :=
+def PWatch (script : List (List Ans)) (closed : Option Nat) (askedAt : List Nat) : Prop :=
   match closed with
-  | some t => ClosedOk script t ∧ ∀ t' < t, ¬ AllExecAt script t'
+  | some t => ClosedOk script t askedAt ∧ ∀ t' < t, ¬ AllExecAt script t'
   | none   => ∀ t' < script.length, ¬ AllExecAt script t'
 
-instance (script : List (List Ans)) (closed : Option Nat) : Decidable (PWatch script closed) := by
+instance (script : List (List Ans)) (closed : Option Nat) (askedAt : List Nat) :
+    Decidable (PWatch script closed askedAt) := by
   unfold PWatch; split <;> infer_instance
 
 /-- ticks that happen BEFORE the signature of a session arrives do not change what is submitted: if the session was
@@ -323,6 +327,18 @@ inductive BOp
   | outcome (ok : Bool) (ns : List Nat) (faults : List Bool)   -- storeProposalsStatus(executed | failed)
   | timeout (ns : List Nat)            -- a session holding `ns` hits its signing time-out: nothing is recorded
 deriving Repr
+
+/-- the operation does not concern record `k`: a delivery that does not contain it, an outcome recording that does
+    not list it, a time-out -/
+def BOp.quietFor (k : Nat) : BOp → Bool
+  | .deliver ns _ => !ns.contains k
+  | .outcome _ ns _ => !ns.contains k
+  | .timeout _ => true
+
+/-- no outcome recording in the list names record `k` -/
+def BOp.noOutcomeFor (k : Nat) : BOp → Bool
+  | .outcome _ ns _ => !ns.contains k
+  | _ => true
 
 /-- per delivery: the status map before it, the fault stream, the delivery, the outcome; and the final map -/
 def runBtc (res : Nat → Nat) : List (Nat × Status) → List BOp → List (Store × List Nat × Out) × List (Nat × Status)
